@@ -19,12 +19,16 @@ def display_rule(F, rep, ty):
     if pieces is None:
         rep.cannot("E6.display", fn, L.Unsupported(b["tir"]["value"], "no format_args! found"))
         return None
-    shape = [(k, v if k == "lit" else (tir.place(v.get("expr") or {}), v.get("trait"), fmtspec.is_default_spec(v))) for k, v in pieces]
+    env = tir.LetEnv(b["tir"]["value"])
+    shape = [(k, v if k == "lit" else (env.place(v.get("expr") or {}, peel=False), v.get("trait"), fmtspec.is_default_spec(v))) for k, v in pieces]
     want = [("arg", ("self.0", "display", True)), ("lit", "."), ("arg", ("self.1", "display", True)), ("lit", "."), ("arg", ("self.2", "display", True))]
     rep.ob("E6.display", shape == want, fn, "format", "%s Display renders %s, want `{self.0}.{self.1}.{self.2}` with default specs" % (ty, shape),
            sample={"type": ty, "pieces": [str(s) for s in shape]})
     # the value must reach the formatter's write_fmt unconditionally (single expression body)
     body = L.strip_try(b["tir"]["value"])
+    if body.get("k") == "Block" and body.get("tail") is not None and all(s.get("k") == "Let" and not s.get("els") and s["pat"].get("k") in ("Bind", "TupleStruct", "Struct", "Tuple")
+                                                                      and tir.place(s.get("init") or {}) is not None for s in body.get("stmts", [])):
+        body = L.strip_try(body["tail"])      # irrefutable destructurings of places before the write
     ok = body.get("k") == "MethodCall" and body.get("method") == "write_fmt"
     rep.ob("E6.display.uncond", ok, fn, "body", "%s Display body is not a single write!() of the three components" % ty)
     return shape
